@@ -282,8 +282,18 @@ func runCase(st *stack.Stack, c Case, idx int) CaseObs {
 			status[tag], _ = strconv.Atoi(hc.Resp[sid].Status)
 		}
 	} else {
-		for _, tag := range tags {
-			resp, _, err := cl.H1("GET /c/"+tag+" HTTP/1.1\r\nHost: vf.test\r\nX-Vf-Tag: "+tag+"\r\n\r\n", "GET")
+		for ti, tag := range tags {
+			// the later requests of an HTTP/1.1 connection take request forms that concern the proxy's own header handling: the
+			// fingerprint names listed in Connection (hop-by-hop for that request: the client's lines go, the proxy's values are
+			// still owed), a body, an absolute-form target
+			extra := ""
+			switch ti % 3 {
+			case 1:
+				extra = "Connection: keep-alive, X-JA3-Fingerprint, x-ja4-fingerprint\r\n"
+			case 2:
+				extra = "Connection: X-Http2-Fingerprint\r\nX-JA3-Fingerprint: from-client\r\n"
+			}
+			resp, _, err := cl.H1("GET /c/"+tag+" HTTP/1.1\r\nHost: vf.test\r\n"+extra+"X-Vf-Tag: "+tag+"\r\n\r\n", "GET")
 			if err != nil {
 				obs.Err = "h1: " + err.Error()
 				break
